@@ -1169,3 +1169,92 @@ def run_rstatsense(prog, E=None, prefix="mpq_", rule="R-RSTATSENSE", floor=3):
     res.counts["public_sense_writers"] = n
     res.floor("public functions that may store a row sense", n, floor)
     return res
+
+
+def run_basiscache(prog, E=None, prefix="mpq_", rule="R-BASISCACHE"):
+    """the stored solution belongs to the stored basis.  QSopt_primal / QSopt_dual answer from the cache without solving when the problem has
+    a basis, a cached solution and a current factorization.  A public function that may write the statuses of p->basis (ILLlp_basis::cstat /
+    rstat, through its own stores or a callee's) therefore returns successfully only after one of: p->factorok = 0 (the next solve starts
+    from the new basis), an invalidation of the cache (free_cache or a helper that wraps it), or a call that stores a new solution for the
+    new basis (QSgrab_cache).  QSopt_pivotin_row / _col replaced the basis by forced pivots and kept all three: the next solve was skipped
+    and OPTIMAL was answered with a basis that is not dual feasible."""
+    E = E or Effects(prog)
+    res = RuleResult(rule, "every public function that may write the statuses of p->basis resets factorok, drops the cached solution or stores a new one on "
+                           "every path to a success return")
+    n = 0
+    invs = invalidator_names(prog)
+    ex = prog.fn(prefix + "ILLfct_update_basis_info")
+    if ex is None:
+        raise AnalysisBroken("R-BASISCACHE: the basis exchange routine %sILLfct_update_basis_info was not found" % prefix)
+    exch = ex.key
+    apikeys = {f2.key for f2, _ in api_functions(prog, prefix)}
+    rc = {}
+
+    def reach_of(g):
+        if g.key not in rc:
+            rc[g.key] = set(prog.reachable([g.key]))
+        return rc[g.key]
+    for f, pidx in api_functions(prog, prefix):
+        if f.live is None or base(f.name) in EXEMPT:
+            continue
+        m = {}
+        for ci in E.callinfo[f.key]:
+            (g, name, loc, args, bid, idx, c) = ci
+            if name and base(name).endswith("grab_basis"):
+                continue              # copies the statuses of the simplex into p->basis: a change only if the simplex basis was changed (below)
+            for (j, fp) in E.call_writes(f, ci):
+                if j == pidx and len(fp) >= 2 and fp[0].endswith("qsdata::basis") and fp[-1].split("::")[0].endswith("ILLlp_basis") \
+                        and fp[-1].split("::")[1] in ("cstat", "rstat"):
+                    m[(bid, idx)] = (loc, "call %s writes the basis statuses" % (name or "(*fp)"))
+            if g is not None and g.key not in apikeys and g.live is not None and any(prog.resolve(g, c2[1]) is not None and prog.resolve(g, c2[1]).key == exch
+                                                                                         for _b, _i, c2 in g.calls() if c2[1]) \
+                    and any(a[0] == "p%d" % pidx for a in args if a):
+                m[(bid, idx)] = (loc, "call %s can exchange basic and non-basic variables" % (name or "(*fp)"))
+        for (j, fp, loc, how, bid, idx) in E.direct_writes(f):
+            if j == pidx and len(fp) >= 2 and fp[0].endswith("qsdata::basis") and fp[-1].split("::")[1] in ("cstat", "rstat"):
+                m[(bid, idx)] = (loc, "direct write of the basis statuses")
+        if not m:
+            continue
+        inv = set()
+        for ci in E.callinfo[f.key]:
+            (g, name, loc, args, bid, idx, c) = ci
+            if name and (base(name) in invs or base(name).endswith("QSgrab_cache")) and args and args[0][0] == "p%d" % pidx:
+                inv.add((bid, idx))
+            # a callee that may set the problem's status word stores the status of what it has just computed (opt_work, the exact tests)
+            if any(j == pidx and fp and fp[-1].endswith("qsdata::qstatus") for (j, fp) in E.call_writes(f, ci)):
+                inv.add((bid, idx))
+            # a public callee that is itself checked by this rule carries the obligation (wrappers)
+            if g is not None and (bid, idx) in m and any(g.key == f2.key for f2, _ in api_functions(prog, prefix)):
+                inv.add((bid, idx))
+        for (j, fp, loc, how, bid, idx) in E.direct_writes(f):
+            if j == pidx and fp and fp[-1].endswith("qsdata::factorok"):
+                e = f.blocks[bid]["e"][idx]
+                if e[0] == "A" and const_of(e[1][3]) == 0:
+                    inv.add((bid, idx))
+            if j == pidx and len(fp) == 1 and fp[0].endswith(("qsdata::cache", "qsdata::qstatus")):
+                inv.add((bid, idx))          # the cache dropped / the status word set in place (the exact verdict functions)
+        # a status write behind an invalidation happens with the cache already gone (nothing but QSgrab_cache, itself counted, stores one)
+        from ..core import dominators as _doms
+        dom_ = _doms(prog, f)[0]
+        m = {k: v for k, v in m.items() if not any((b2 == k[0] and i2 < k[1]) or (b2 != k[0] and b2 in dom_.get(k[0], ())) for (b2, i2) in inv)}
+        if not m:
+            res.sample({"function": f.name, "verdict": "every basis write lies behind an invalidation"}, limit=14)
+            n += 1
+            res.obligations += 1
+            res.nontrivial += 1
+            continue
+        n += 1
+        an = MustFollow(prog, f, m, inv).run()
+        res.obligations += len(m)
+        res.nontrivial += len(m)
+        if an.bad:
+            loc, (bid, st) = sorted(an.bad.items())[0]
+            res.violations.append(Violation(rule, "%s|basis statuses replaced, factorok and the cached solution kept" % base(f.name), f.name, short_loc(loc),
+                                            "%s can return 0 after %s with p->factorok still set and the cached solution still in place: QSopt_primal / QSopt_dual "
+                                            "then answer from the cache without solving, for a basis the solution does not belong to" % (
+                                                f.name, sorted(m.values())[0][1]), path=an.flow.witness(bid, st)))
+        else:
+            res.sample({"function": f.name, "basis_writing_events": len(m), "verdict": "factorok reset / cache dropped / new solution stored on every success path"}, limit=14)
+    res.counts["public_functions_writing_the_basis_statuses"] = n
+    res.floor("public functions that may write the statuses of p->basis", n, 10)
+    return res
